@@ -35,6 +35,9 @@ def run(ctx):
                 core.leanchecker(ctx, ["ButlerModel.Props.C10"])
     with repo.Scratch("verif-c10-") as tmp:
         correspondence(ctx, built, tmp)
+        # existence reports over datasets that share artifacts (multi-dataset ingests, zips, direct ingests)
+        from vlib import arthist
+        arthist.histories(ctx, False, tmp, mode="C10")
 
 
 def correspondence(ctx, model_ok, tmp):
